@@ -376,3 +376,102 @@ def c09_prog(name, op, base_l_ref, base_r_ref, rhs_other, req, generic=False, ba
     text += "pub fn replay(h: &str, b: &[u8]) -> (bool, String) {\n    let mut s = VecSrc { v: b.to_vec(), i: 0 };\n    match h {\n%s\n        _ => (true, String::from(\"unknown harness\")),\n    }\n}\n" % "\n".join(replays)
     desc = "impl %s%s<%s> for %s%s  derive_ex(%s)" % (op, "Assign" if base_assign else "", rty, LT if base_assign else lty, wh, ", ".join(lst) if not base_assign else op)
     return Prog(name, text, harnesses, {"describe": desc})
+
+
+# ------------------------------------------------------------------------------------------------ C11
+C11_SUPPORT = r'''
+/// probe field type: conversions differ from identity, so whether `Into` was applied is observable
+#[derive(Debug, PartialEq, Eq, Clone, Copy, Default)]
+pub struct S8(pub u8);
+impl From<&str> for S8 { fn from(s: &str) -> S8 { S8(s.len() as u8 + 100) } }
+#[derive(Debug, PartialEq, Eq, Clone, Copy)]
+pub struct Cc(pub u8);
+impl From<Cc> for S8 { fn from(c: Cc) -> S8 { S8(c.0 + 50) } }
+pub const C_U8: u8 = 41;
+pub const C_CC: Cc = Cc(3);
+pub struct K;
+impl K { pub const V: u8 = 77; pub const W: Cc = Cc(9); }
+pub fn mk8() -> u8 { 13 }
+pub fn mks() -> S8 { S8(1) }
+'''
+
+# (field type, attribute expression or None, reference value expression)
+C11_FIELD_CASES = [
+    ("u8", None, "<u8 as Default>::default()"), ("bool", None, "<bool as Default>::default()"), ("Option<u8>", None, "None"), ("S8", None, "<S8 as Default>::default()"),
+    ("u8", "5", "5u8"), ("i16", "-5", "-5i16"), ("bool", "true", "true"), ("char", "'x'", "'x'"),
+    ("S8", '"abc"', 'S8::from("abc")'), ("u8", "C_U8", "C_U8"), ("S8", "C_CC", "S8::from(C_CC)"), ("u8", "K::V", "K::V"), ("S8", "K::W", "S8::from(K::W)"),
+    ("u8", "mk8()", "mk8()"), ("S8", "mks()", "mks()"), ("u8", "{ 1 + 2 }", "3u8"), ("u8", "_", "<u8 as Default>::default()"), ("Option<u8>", "Some(4)", "Some(4)"),
+    ("u8", "7, bound()", "7u8"), ("S8", '"xy", bound()', 'S8::from("xy")'), ("u8", "_, bound()", "0u8"), ("u8", "C_U8 + 1", "42u8"), ("i16", "(-3)", "-3i16"),
+]
+
+
+def c11_prog(name, rng, entry):
+    is_enum = rng.random() < 0.5
+    def mkfields(kind):
+        n = 0 if kind == "unit" else rng.randint(0, 3)
+        return [rng.choice(C11_FIELD_CASES) for _ in range(n)]
+    def decl(kind, fs, pub):
+        if kind == "unit":
+            return ""
+        items = []
+        for i, (ty, at, _) in enumerate(fs):
+            a = ("#[default(%s)] " % at) if at is not None else ""
+            items.append("%s%s%s%s" % (a, pub, ("f%d: " % i) if kind == "named" else "", ty))
+        return (" { %s }" if kind == "named" else "(%s)") % ", ".join(items)
+    def ctor(path, kind, fs):
+        if kind == "unit":
+            return path
+        vals = [ref for (_, _, ref) in fs]
+        if kind == "named":
+            return path + " { " + ", ".join("f%d: %s" % (i, v) for i, v in enumerate(vals)) + " }"
+        return path + "(" + ", ".join(vals) + ")"
+    tl = None
+    if is_enum:
+        nv = rng.randint(1, 4)
+        kinds = [rng.choice(["unit", "tuple", "named"]) for _ in range(nv)]
+        vs = [("ABCD"[i], kinds[i], mkfields(kinds[i])) for i in range(nv)]
+        dv = rng.randrange(nv)
+        mark = nv > 1 or rng.random() < 0.5
+        body = []
+        for i, (vn, kind, fs) in enumerate(vs):
+            m = ""
+            if i == dv and mark:
+                m = rng.choice(["#[default] ", "#[default(_)] ", "#[default(_, bound())] "])
+            body.append(m + vn + decl(kind, fs, ""))
+        ref = ctor("X::" + vs[dv][0], vs[dv][1], vs[dv][2])
+        if rng.random() < 0.15:
+            tl = "X::%s" % vs[0][0] if vs[0][1] == "unit" else None
+        item = "pub enum X { %s }" % ", ".join(body)
+        desc = "enum default=%s%s: %s" % (vs[dv][0], "" if mark else "(single, unmarked)", item)
+    else:
+        kind = rng.choice(["unit", "tuple", "named"])
+        fs = mkfields(kind)
+        ref = ctor("X", kind, fs)
+        item = "pub struct X%s%s" % (decl(kind, fs, "pub "), "" if kind == "named" else ";")
+        if rng.random() < 0.2:
+            tl = "X::new()"
+        desc = "struct: " + item
+    tattr = ""
+    extra = ""
+    if tl is not None:
+        tattr = "#[default(%s)]\n" % tl
+        if tl == "X::new()":
+            extra = "impl X { pub fn new() -> X { let mut x = %s; x } }\n" % ref
+            ref = "X::new()"
+        else:
+            ref = tl
+        desc = "type-level #[default(%s)] " % tl + desc
+    head = ("#[derive_ex::derive_ex(Default)]\n#[derive(Debug, PartialEq)]\n" if entry == "attr" else "#[derive(derive_ex::Ex, Debug, PartialEq)]\n#[derive_ex(Default)]\n")
+    text = head + tattr + item + "\n\n" + extra + r'''
+pub fn reference() -> X { REF }
+#[cfg_attr(kani, kani::ensures(|r: &X| *r == reference()))]
+pub fn w_default() -> X { <X as Default>::default() }
+#[cfg(kani)]
+pub mod proofs {
+    use super::*;
+    #[kani::proof_for_contract(w_default)]
+    pub fn default() { let _r = w_default(); kani::cover!(true); }
+}
+pub fn replay(h: &str, b: &[u8]) -> (bool, String) { let d = w_default(); let r = reference(); (d == r, format!("default() = {:?}, documented value = {:?}", d, r)) }
+'''.replace("REF", ref)
+    return Prog(name, text, ["default"], {"describe": desc + " entry=" + entry})
